@@ -49,6 +49,8 @@ class C07System(BuilderSystem):
             st.g.set_bounds("feed-rate", 0, 2000)
             st.g.set_bounds("tool-power", 0, 100)
             st.g.set_bounds("hotend-temperature", 0, 60)
+            st.g.set_bounds("bed-temperature", 0, 60)
+            st.g.set_bounds("chamber-temperature", 0, 60)
             st.g.set_bounds("axes", (-5, -5, -5), (5, 5, 5))
 
     def fresh(self):
